@@ -245,6 +245,11 @@ func (e *Engine) builtin(fr *frame, b *ssa.Builtin, args []Value, in ssa.Value) 
 		return Iface{}
 	case "print", "println":
 		return nil
+	case "ssa:wrapnilchk":
+		if p, ok := args[0].(*Value); ok && p == nil {
+			e.goPanicStr("value method " + strVal(args[1]) + "." + strVal(args[2]) + " called using nil pointer")
+		}
+		return args[0]
 	case "String": // unsafe.String(ptr, len)
 		n := e.concretize(args[1].(Term), 0, 1<<20)
 		if n == 0 {
